@@ -6,6 +6,7 @@ from ..loader import AnalysisError, norm_stmt, walk_own
 from ..rules_flow import forwarding
 from .common import add_fwd, ret_tags
 from .common import check as ob
+from ..canon import Canon, localise, each, bound, custom
 
 EXPLANATION = (
     'Decides necessary conditions of the round trip: (a) the delimiter table extracted from the serializer '
@@ -66,10 +67,32 @@ def _field_of_iter(e) -> Optional[str]:
     return None
 
 
+def writer_func(program, fname):
+    """serializer part with its locals spelled interval / i / aa (whatever they are called in the source)"""
+    return localise(program.func(f'{PP}:{fname}'),
+                    {'interval': each(lambda t: t in ('annotation.intervals', 'annotation._intervals')),
+                     'i': each('enumerate(annotation.sequence)', (0,)),
+                     'aa': each('enumerate(annotation.sequence)', (1,))}, strict=False)
+
+
+def reader_func(program, fname):
+    """parser phase with its locals spelled cur / next_char / dummy_interval"""
+    def record(c, fnode):
+        for n in ast.walk(fnode):
+            if isinstance(n, ast.Call) and isinstance(n.func, ast.Name) and n.func.id == 'Interval':
+                for kw in n.keywords:
+                    if kw.arg == 'start' and isinstance(kw.value, ast.Subscript) and isinstance(kw.value.value, ast.Name):
+                        return kw.value.value.id
+        return None
+    return localise(program.func(f'{PP}:_ProFormaParser.{fname}'),
+                    {'cur': bound('self._current()'), 'next_char': bound(lambda t: t in ('self._parse_char()', 'self._peek()')),
+                     'dummy_interval': custom(record)}, strict=False)
+
+
 def writer_table(program) -> Dict[str, dict]:
     rows: Dict[str, dict] = {}
     for fname in ('_serialize_annotation_start', '_serialize_annotation_middle', '_serialize_annotation_end'):
-        f = program.func(f'{PP}:{fname}')
+        f = writer_func(program, fname)
 
         def visit(block, under: List[str]):
             for i, st in enumerate(block):
@@ -187,7 +210,7 @@ def reader_table(program) -> Dict[str, dict]:
     links: Dict[bool, str] = {}
     markers: Dict[str, dict] = {}
     for fname in ('_parse_sequence_start', '_parse_sequence_middle', '_parse_sequence_end'):
-        f = program.func(f'{PP}:_ProFormaParser.{fname}')
+        f = reader_func(program, fname)
 
         def visit(block, conds: List[Tuple[str, str]], defs: Dict[str, Tuple[str, str]], extra: List[str]):
             defs = dict(defs)
@@ -478,13 +501,15 @@ def index_kinds(ctx, rep, clause):
        f'end is read as {r.get("close", {}).get("end")}', r.get('close', {}).get('loc', ''), clause)
     f = program.func(f'{PP}:_ProFormaParser._add_internal_mod')
     pos = None
+    cf = Canon(f.node)
     for n in walk_own(f.node):
-        if isinstance(n, ast.Assign) and isinstance(n.targets[0], ast.Name) and n.targets[0].id == 'position':
-            pos = norm_stmt(n.value)
+        # the key under which the modification is filed: self._internal_mods[<key>]
+        if isinstance(n, ast.Subscript) and norm_stmt(n.value) == 'self._internal_mods':
+            pos = norm_stmt(cf.resolve(n.slice))
     ob(rep, 'KIND', f.fq, 'a residue modification is attached at len(residues) - 1', pos == 'len(self._amino_acids) - 1',
        'Position of the residue just read', f'attached at {pos}', f.loc(), clause)
     # writer: markers are emitted before residue i for start == i / end == i, and once more for end == n
-    g = program.func(f'{PP}:_serialize_annotation_middle')
+    g = writer_func(program, '_serialize_annotation_middle')
     loop = None
     for st in g.node.body:
         if isinstance(st, ast.For) and 'enumerate(annotation.sequence)' in norm_stmt(st.iter):
